@@ -205,6 +205,49 @@ type FieldStore struct {
 	Instr ssa.Instruction
 	Val   ssa.Value
 	Base  ssa.Value
+	Via   *ssa.Function // set by liftParamStores: the helper that performs the store with its parameter
+}
+
+// liftParamStores judges a store of a helper's parameter where the value is known: a store
+// `x.F = p` in an unexported helper all of whose callers are static calls is replaced by one entry
+// per call site (enclosing function, the call as the instruction, the argument as the value), up
+// to two levels. The store happens only if the call is reached, so what guards the call guards
+// the store.
+func (c *Ctx) liftParamStores(stores []FieldStore) []FieldStore {
+	var out []FieldStore
+	var lift func(st FieldStore, d int)
+	lift = func(st FieldStore, d int) {
+		p, isP := unspill(st.Val).(*ssa.Parameter)
+		if !isP || d > 2 || p.Parent() != st.Fn || st.Fn.Parent() != nil {
+			out = append(out, st)
+			return
+		}
+		sites, complete := c.staticCallers(st.Fn)
+		if !complete || len(sites) == 0 {
+			out = append(out, st)
+			return
+		}
+		idx := paramIndex(p)
+		for _, s := range sites {
+			call, isCall := s.Call.(*ssa.Call)
+			if !isCall || idx < 0 || idx >= len(call.Call.Args) {
+				out = append(out, st)
+				return
+			}
+		}
+		via := st.Via
+		if via == nil {
+			via = st.Fn
+		}
+		for _, s := range sites {
+			call := s.Call.(*ssa.Call)
+			lift(FieldStore{Fn: s.Fn, Instr: call, Val: call.Call.Args[idx], Via: via}, d+1)
+		}
+	}
+	for _, st := range stores {
+		lift(st, 0)
+	}
+	return out
 }
 
 // StoresTo finds every Store instruction in the module whose address is &T.F for owner type T.
@@ -221,7 +264,7 @@ func (c *Ctx) StoresTo(owner, field string) []FieldStore {
 				}
 				o, f, base, ok := fieldOfAddr(st.Addr)
 				if ok && o == owner && f == field {
-					out = append(out, FieldStore{fn, st, st.Val, base})
+					out = append(out, FieldStore{Fn: fn, Instr: st, Val: st.Val, Base: base})
 				}
 			}
 		}
@@ -257,7 +300,7 @@ func (c *Ctx) AddrUses(owner, field string) []FieldStore {
 					case *ssa.DebugRef:
 						continue
 					}
-					out = append(out, FieldStore{fn, ref, nil, base})
+					out = append(out, FieldStore{Fn: fn, Instr: ref, Base: base})
 				}
 			}
 		}
@@ -282,7 +325,19 @@ func isBasicNonNil(t types.Type) bool {
 	return false
 }
 
+// constOverride gives loop counters a value while a counted loop is unrolled symbolically
+// (layout extraction); empty otherwise.
+var constOverride map[ssa.Value]int64
+
 func constInt(v ssa.Value) (int64, bool) {
+	if len(constOverride) > 0 {
+		if k, ok := constOverride[v]; ok {
+			return k, true
+		}
+		if k, ok := constOverride[stripConv(v)]; ok {
+			return k, true
+		}
+	}
 	c, ok := v.(*ssa.Const)
 	if !ok || c.Value == nil {
 		return 0, false
@@ -835,6 +890,44 @@ func unspill(v ssa.Value) ssa.Value {
 			return v
 		}
 		v = last
+	}
+	return v
+}
+
+// cellValue resolves a load of a private local cell (a named result, a variable of a function
+// with defers) to the value of the store that reaches it: the store dominates the load and no
+// other store to the cell lies between the two. Anything else is returned unchanged.
+func cellValue(v ssa.Value) ssa.Value {
+	if u := unspill(v); u != v {
+		return u
+	}
+	ld, ok := v.(*ssa.UnOp)
+	if !ok || ld.Op != token.MUL {
+		return v
+	}
+	al, ok := ld.X.(*ssa.Alloc)
+	if !ok || !privateCell(al) {
+		return v
+	}
+	var stores []*ssa.Store
+	for _, ref := range *al.Referrers() {
+		if st, isSt := ref.(*ssa.Store); isSt {
+			stores = append(stores, st)
+		}
+	}
+	for _, s1 := range stores {
+		if !instrDominates(s1, ld) {
+			continue
+		}
+		clean := true
+		for _, s2 := range stores {
+			if s2 != s1 && instrReaches(s1, s2) && instrReaches(s2, ld) {
+				clean = false
+			}
+		}
+		if clean {
+			return s1.Val
+		}
 	}
 	return v
 }
